@@ -723,7 +723,7 @@ class SparseArray:
                 if value: 
                     i = int(j / vector_size)
                     j -= i * vector_size
-                    dcts[i][j] = value
+                    dcts[i][j] = float(value)
         elif dtype is bool:
             sets = [i.set for i in rows]
             for i in sets: i.clear()
